@@ -1,4 +1,4 @@
 SPECIFICATION Spec
-CONSTANTS Kinds = {"K1"}  Ids = {1}  Ctrls = {"w", "d"}  Cfg <- CfgA  Alt <- AltNoneWD  Cached = {}  MaxWrites = 4  MaxFaults = 1  MapTo <- MapSame
+CONSTANTS Kinds = {"K1"}  Ids = {1}  Ctrls = {"w", "d"}  Cfg <- CfgA  Alt <- AltNoneWD  Cached = {}  MaxWrites = 4  MaxFaults = 1  Noops = FALSE  MapTo <- MapSame
 INVARIANTS NoLostWakeup MappedReachesPrimaries CacheCoherentWhenQuiet
 CHECK_DEADLOCK FALSE
